@@ -2,10 +2,10 @@ package rules
 
 import (
 	"fmt"
-	"sort"
 	"go/constant"
 	"go/token"
 	"go/types"
+	"sort"
 	"strings"
 
 	"cachelint/internal/core"
@@ -36,8 +36,8 @@ func C11(r *Run) *core.Report {
 	c11L3(r, rep)
 	c11L4(r, rep)
 	// L5: no entry lost, duplicated or resurrected by a grow, a shrink or a Clear - restated premises
-	n := borrow(rep, mapProtocol(r, "C03", 0), "C11.L5", "C03.P4", "C03.P6", "C03.P7", "C03.P10", "C03.P12")
-	n += borrow(rep, mapProtocol(r, "C04", 1), "C11.L5", "C04.P4", "C04.P6", "C04.P7", "C04.P10", "C04.P12")
+	n := borrow(rep, mapProtocol(r, "C03", 0), "C11.L5", "C03.P4", "C03.P6", "C03.P7", "C03.P10", "C03.P12", "C03.P14")
+	n += borrow(rep, mapProtocol(r, "C04", 1), "C11.L5", "C04.P4", "C04.P6", "C04.P7", "C04.P10", "C04.P12", "C04.P14")
 	rep.MinCount("C11.L5", "premise obligations (resize / Clear integrity, packed-word consistency)", n, 20)
 	// L6: keys that compare equal hash equal under every seed (otherwise what a call finds depends on seed and
 	// table size) - restated from the hasher rules of C10
@@ -294,7 +294,7 @@ func c11L2(r *Run, rep *core.Report) {
 		}
 		for _, f := range chainFns {
 			nChain++
-			m := &core.Machine[bool]{P: r.P, Fn: f, Spec: core.Spec{}}
+			m := &core.Machine[bool]{P: r.P, Fn: f, Spec: core.Spec{}, Inline: helperInlineOrWalk(r)}
 			bad := ""
 			var badIn ssa.Instruction
 			m.Step = func(ctx *core.Ctx[bool], s bool, in ssa.Instruction) []bool {
@@ -651,7 +651,7 @@ func isSliceField(r *Run, mm *core.MapModel, fld string) bool {
 	st := core.StructOf(obj.Type())
 	for i := 0; i < st.NumFields(); i++ {
 		if st.Field(i).Name() == fld {
-			_, ok := st.Field(i).Type().(*types.Slice)
+			_, ok := st.Field(i).Type().Underlying().(*types.Slice)
 			return ok
 		}
 	}
@@ -859,7 +859,7 @@ func c11MaskLayout(r *Run, rep *core.Report, nSlots int) {
 	}
 	scal := map[ssa.Value]constant.Value{}
 	glob := map[*ssa.Global]constant.Value{}
-	arr := map[ssa.Value][]constant.Value{}   // local arrays
+	arr := map[ssa.Value][]constant.Value{}    // local arrays
 	garr := map[*ssa.Global][]constant.Value{} // global arrays
 	elem := map[ssa.Value]struct {
 		base ssa.Value
@@ -1027,4 +1027,24 @@ func archSuffix(r *Run) string {
 		return " [GOARCH=" + r.P.GOARCH + "]"
 	}
 	return ""
+}
+
+// helperInlineOrWalk: besides the helpers the path engines always analyse in place, a helper that only walks a bucket
+// chain (reads, appends to a local slice) is followed too, so that 'the whole chain was walked' is seen at its call site.
+func helperInlineOrWalk(r *Run) func(*ssa.Function, ssa.CallInstruction) bool {
+	base := helperInline(r)
+	return func(g *ssa.Function, c ssa.CallInstruction) bool {
+		if base(g, c) {
+			return true
+		}
+		if g == nil || g.Pkg != r.P.Xsync || g.Blocks == nil || roleFuncs(r)[g] {
+			return false
+		}
+		for _, p := range g.Params {
+			if isBucketType(r, elemOf(p.Type())) {
+				return true
+			}
+		}
+		return false
+	}
 }
